@@ -7,6 +7,7 @@ open Sdc Sdc.Tls
        (pT,pA,cA ∈ 0|1; pS,cS ∈ own|plain|tls; cM ∈ none|optional|enforced; ssl ∈ T|F|N = `is_ssl_connection`)
   `crun mode ev…` (ev ∈ c1|c0|cx|g<netloc>|s) -> final `is_ssl_connection` and TLS flags of the clients created
   `verify server ca` -> verify mode
+  `folder key cert caNamed caPresent` -> result of mk_ssl_contexts_from_folder
   `delivery pT scheme async` -> 1 iff a notification to a subscriber with that NotifyTo scheme is sent with TLS -/
 
 def parseBool : String → Option Bool
@@ -88,6 +89,13 @@ def stepLine (u : Unit) (line : String) : Unit × String :=
         (u, b01 (deliveryTls cfg (if scheme == "https" then .https else .http) m))
       else (u, "bad-op")
     | _, _ => (u, "bad-op")
+  | ["folder", k, c, n, p] =>
+    match parseBool k, parseBool c, parseBool n, parseBool p with
+    | some k, some c, some n, some p =>
+      match fromFolder k c n p with
+      | .fileNotFound => (u, "FileNotFoundError")
+      | .contexts cl sv => (u, s!"{showVerify cl} {showVerify sv}")
+    | _, _, _, _ => (u, "bad-op")
   | ["init", mode] => match parseMode mode with
     | some m => (u, showSsl (initSsl m))
     | none => (u, "bad-op")
